@@ -10,6 +10,17 @@ use std::sync::OnceLock;
 
 pub struct C18;
 
+/// This check is cheap: the quick tier already runs the full alphabet (what used to be the
+/// thorough tier); `deep` marks the extras that only the thorough tier adds.
+#[allow(dead_code)]
+fn full(_t: Tier) -> bool {
+    true
+}
+#[allow(dead_code)]
+fn deep(t: Tier) -> bool {
+    t == Tier::Thorough
+}
+
 #[derive(Clone, Debug)]
 struct Case {
     class: String,
@@ -41,11 +52,11 @@ fn partial_program(n: usize) -> (&'static str, ReqPlan) {
 fn cases(tier: Tier) -> &'static Vec<Case> {
     static Q: OnceLock<Vec<Case>> = OnceLock::new();
     static T: OnceLock<Vec<Case>> = OnceLock::new();
-    let cell = if tier == Tier::Quick { &Q } else { &T };
+    let cell = if !full(tier) { &Q } else { &T };
     cell.get_or_init(|| {
         let mut v = Vec::new();
         let expects: Vec<Option<&str>> = vec![None, Some("100-continue"), Some("100-Continue"), Some("100-CONTINUE")];
-        let lens: Vec<usize> = if tier == Tier::Thorough { vec![0, 5, 1024, 1025, 3000] } else { vec![0, 5, 1025] };
+        let lens: Vec<usize> = if full(tier) { vec![0, 5, 1024, 1025, 3000] } else { vec![0, 5, 1025] };
         for e in &expects {
             for &n in &lens {
                 let mut progs = programs();
@@ -61,7 +72,7 @@ fn cases(tier: Tier) -> &'static Vec<Case> {
                             for chunked in [false, true] {
                                 let reads_all = matches!(plan.read, ReadPlan::ReadToEnd | ReadPlan::Sizes { limit: None, .. });
                                 // unread chunked bodies are the subject of C09, not of this property
-                                if chunked && (n == 0 || !reads_all || tier == Tier::Quick && pos == 1) {
+                                if chunked && (n == 0 || !reads_all || !full(tier) && pos == 1) {
                                     continue;
                                 }
                                 let body = payload(n);
@@ -170,7 +181,7 @@ impl Check for C18 {
     fn rule(&self, tier: Tier) -> String {
         format!(
             "Expect {{absent, 100-continue, 100-Continue, 100-CONTINUE}} x body length {:?} (Content-Length and chunked) x application program {:?}+partial-read x client {{sends the body immediately, withholds the body until it has parsed an interim 100 response (reactive client)}} x position 1..2 in a pipeline; {} conversations; oracle: exactly one interim 100 iff the program asks for the body of an expecting request, placed after the predecessor's final response and before its own; the withheld body is then read in full; none otherwise; non-trivial = expecting request whose body is asked for or withheld",
-            if tier == Tier::Thorough { vec![0, 5, 1024, 1025, 3000] } else { vec![0, 5, 1025] },
+            if full(tier) { vec![0, 5, 1024, 1025, 3000] } else { vec![0, 5, 1025] },
             programs().iter().map(|p| p.0).collect::<Vec<_>>(), cases(tier).len()
         )
     }
